@@ -782,6 +782,12 @@ def generate(rng, index, tier):
                     ops.append({'op': 'enable_sensitivities', 'on': h,
                                 'enabled': True})
                 ops.append(op)
+                if rng.random() < 0.4:
+                    # a rejected call in the all-fixed state
+                    ops.append({'op': 'bad_call', 'on': h, 'how': rng.choice(
+                        ['output', 'sens_name'])})
+                    if rng.random() < 0.5:
+                        continue
                 op = {'op': 'fix_parameters', 'on': h, 'values': {
                     sh['par'].get(c, c): None for c in rng.sample(
                         cands, rng.randint(1, 2))}}
